@@ -1,6 +1,7 @@
 package main
 
 import (
+	"encoding/json"
 	"flag"
 	"fmt"
 	"os"
@@ -19,6 +20,20 @@ func main() {
 	if err != nil {
 		fmt.Fprintf(os.Stderr, "load failed: %v\n", err)
 		os.Exit(2)
+	}
+	if *dump == "params" {
+		// regenerate spec/params.json (by hand, when checks are (re)written)
+		out := map[string][]string{}
+		for _, fn := range P.LibFuncs(false) {
+			var ns []string
+			for _, p := range fn.Params {
+				ns = append(ns, p.Name())
+			}
+			out[fn.String()] = ns
+		}
+		b, _ := json.MarshalIndent(out, "", " ")
+		fmt.Println(string(b))
+		return
 	}
 	if *dump != "" {
 		for _, a := range strings.Split(*dump, ",") {
